@@ -30,6 +30,18 @@ T = {
  'C17-B': ('C17', 'MoveMessagesFromMailbox checks the limits of the source mailbox', 'MOVE from a small mailbox into a full one'),
  'C18-A': ('C18', 'LIST "" "" answered by handleAnyCommand before LOGIN', 'exactly LIST "" "" before LOGIN'),
  'C18-B': ('C18', 'jail timer no longer resets the login-error counter', 'keep failing after the first jail without a success in between'),
+ 'C02-A': ('C02', 'MoveMessagesFromMailbox announces the removal from the source mailbox with the message-only filter instead of message+mailbox', 'the message is in two mailboxes, the observer has the other one selected, another session MOVEs it out of the first'),
+ 'C02-B': ('C02', 'State.close no longer drops the pending responders of the closed mailbox', 'an update queued for mailbox X, then SELECT of another mailbox, then NOOP'),
+ 'C07-C': ('C07', 'newUser runs the orphan sweep before the purge of messages marked deleted', 'two messages marked for deletion at start-up and one failing cache-file delete during the purge'),
+ 'C07-D': ('C07', 'getLiteral caches the re-downloaded literal without the internal-id header it returns', 'cache file of a listed message lost, message fetched twice (also across restart)'),
+ 'C08-A': ('C08', 'wrapTx returns before Rollback when the error wraps context.Canceled', 'a Write callback that wrote and then returns an error wrapping context.Canceled'),
+ 'C08-B': ('C08', 'CreateMessages hoists its argument slices out of the chunk loop and does not reset the flag arguments', 'one call with more than 1000 requests and a flagged message outside the last batch'),
+ 'C12-C': ('C12', 'ScanAll drops parts whose data is empty (len(data) != 0 instead of data != nil)', 'a multipart with two consecutive delimiter lines'),
+ 'C12-D': ('C12', 'parameter/header values without a double quote are written between quotes unescaped', 'a header or MIME parameter value ending in a backslash'),
+ 'C14-A': ('C14', 'RENAME rewrites every occurrence of the old name in an inferior (ReplaceAll)', 'an inferior whose path contains the old name a second time'),
+ 'C14-B': ('C14', 'match anchors the regular expression unless the pattern contains % anywhere', 'a % that is not the last character of the pattern'),
+ 'C20-C': ('C20', 'MessageHashesMap.Erase deletes the id before looking the hash up: the hash is never forgotten', 'rejected APPEND, the copy leaves the recovery mailbox, the same bytes are rejected again'),
+ 'C20-D': ('C20', 'actionCreateRecoveredMessage returns the error of the de-duplication hash instead of ignoring it', 'a rejected APPEND of a message whose text part declares base64 that does not decode'),
  'C18-C': ('C18', 'handleLogin trims blanks around user name and password', 'a quoted/literal credential with leading or trailing blanks'),
 }
 for sid, (prop, what, needs) in sorted(T.items()):
